@@ -624,7 +624,9 @@ def b_operand(ty, v):
     if ty == "FBool":
         return "tt" if v else "ff"
     if ty == "FSInt":
-        return "K(%d)" % v if v >= 0 else "(K(0) - K(%d))" % -v if v == -M31 else "K(-%d)" % -v
+        if v == -M31:
+            return "SIntMinus(K(-%d), K(1))" % (M31 - 1)       # the literal 2147483648 itself is beyond the Java int
+        return "K(%d)" % v if v >= 0 else "K(-%d)" % -v
     if ty == "FChar":
         return "CharNum(K(%d))" % v
     if ty == "FByte":
@@ -702,52 +704,70 @@ def builtin_level(rep, exe, drv, rng, quick, base, stats):
         tests += [(n, list(t)) for t in tups[:cap]]
     ans = model_query(drv, ["eval %s %s" % (n, " ".join(str(x) for x in ops)) for n, ops in tests])
     keep = [(t, a) for t, a in zip(tests, ans) if a["typed"] and a["dom"] and a["java"] != "undef"]
-    # programs of ~150 tests: one JVM each
-    chunks = [keep[i:i + 150] for i in range(0, len(keep), 150)]
-    progs = [{"unit": "b%d" % i, "src": b_program([t for t, _ in ch], sigs)} for i, ch in enumerate(chunks)]
+    # programs of ~150 tests: one JVM each; when the JVM dies inside a test, that test is the culprit (the first
+    # value missing from the output) and the rest of the chunk is run again
+    todo = [keep[i:i + 150] for i in range(0, len(keep), 150)]
     d = base + "/builtins"
-    jr = java_batch(exe, progs, d, [0], timeout=120)
-    ir = interp_batch(exe, progs, d, [0], timeout=120)
     seen_bad = set()
-    for p, ch in zip(progs, chunks):
-        j, it = jr[(p["unit"], 0)], ir[(p["unit"], 0)]
-        if j["status"] in ("gen-error", "javac-error") or it["rc"] != 0:
-            stats["builtin_chunks_failed"] += 1
-            rep.violation("builtin-level test program does not get through the %s" % ("Java route: " + j["status"] if it["rc"] == 0 else "interpreter"),
-                          {"src": p["src"][:6000], "java": j["err"][-1500:] + j["out"][-500:], "interp": it["out"][-800:]}, no_input=True)
-            continue
-        jv, iv = parse_t(j["out"]), parse_t(it["out"])
-        for i, ((n, ops), a) in enumerate(ch):
-            t = "t%d" % i
-            stats["builtin_evaluations"] += 1
-            if t not in jv or t not in iv:
+    rounds = 0
+    while todo and rounds < 12:
+        rounds += 1
+        progs = [{"unit": "b%dx%d" % (rounds, i), "src": b_program([t for t, _ in ch], sigs)} for i, ch in enumerate(todo)]
+        jr = java_batch(exe, progs, "%s/r%d" % (d, rounds), [0], timeout=120)
+        ir = interp_batch(exe, progs, "%s/r%d" % (d, rounds), [0], timeout=120)
+        nxt = []
+        for p, ch in zip(progs, todo):
+            j, it = jr[(p["unit"], 0)], ir[(p["unit"], 0)]
+            if j["status"] in ("gen-error", "javac-error") or it["rc"] != 0:
+                stats["builtin_chunks_failed"] += 1
+                if len(ch) > 1:                      # find the test the translation chokes on
+                    nxt += [ch[:len(ch) // 2], ch[len(ch) // 2:]]
+                    continue
+                (n, ops), a = ch[0]
                 if n not in seen_bad:
                     seen_bad.add(n)
-                    rep.violation("builtin %s%s: no value printed on the %s route (the program died: %s)"
-                                  % (n, ops, "Java" if t not in jv else "interpreter", j["err"].strip().split("\n")[0][:150]),
-                                  {"builtin": n, "operands": ops, "java_stderr": j["err"][:800]}, key="java:" + n)
+                    rep.violation("builtin %s%s: the test program does not get through the %s" % (n, ops,
+                                  "Java route: " + j["status"] if it["rc"] == 0 else "interpreter"),
+                                  {"builtin": n, "operands": ops, "java": j["err"][-1500:] + j["out"][-500:], "interp": it["out"][-800:]},
+                                  key="java:" + n)
                 continue
-            model_java = int(a["java"])
-            if a["fits"]:
-                stats["builtin_inside_side_condition"] += 1
-                # THE PROPERTY at builtin level
-                if jv[t] != iv[t] or jv[t] != int(a["spec"]):
+            jv, iv = parse_t(j["out"]), parse_t(it["out"])
+            for i, ((n, ops), a) in enumerate(ch):
+                t = "t%d" % i
+                if t not in jv or t not in iv:
+                    # the run died in this test
                     if n not in seen_bad:
                         seen_bad.add(n)
-                        rep.violation("builtin %s on %s: Java gives %d, the interpreter %d, the definition %s (inside the side condition)"
-                                      % (n, ops, jv[t], iv[t], a["spec"]),
-                                      {"builtin": n, "operands": ops, "java": jv[t], "interp": iv[t], "spec": a["spec"],
+                        rep.violation("builtin %s%s: no value printed on the %s route (the run died: %s)"
+                                      % (n, ops, "Java" if t not in jv else "interpreter", j["err"].strip().split("\n")[0][:150]),
+                                      {"builtin": n, "operands": ops, "java_stderr": j["err"][:800],
                                        "how_to_replay": "./check C12 --replay <this file>"}, key="java:" + n)
-                    continue
-            if jv[t] != model_java:
-                stats["builtin_model_mismatch"] += 1
-                if ("model", n) not in seen_bad:
-                    seen_bad.add(("model", n))
-                    rep.violation("correspondence Java/Model no longer checks: %s on %s is %d on the JVM, the model says %d"
-                                  % (n, ops, jv[t], model_java), {"builtin": n, "operands": ops, "jvm": jv[t], "model": model_java},
-                                  no_input=True)
-            else:
-                stats["builtin_model_agree"] += 1
+                    if ch[i + 1:]:
+                        nxt.append(ch[i + 1:])
+                    break
+                stats["builtin_evaluations"] += 1
+                model_java = int(a["java"])
+                if a["fits"]:
+                    stats["builtin_inside_side_condition"] += 1
+                    # THE PROPERTY at builtin level
+                    if jv[t] != iv[t] or jv[t] != int(a["spec"]):
+                        if n not in seen_bad:
+                            seen_bad.add(n)
+                            rep.violation("builtin %s on %s: Java gives %d, the interpreter %d, the definition %s (inside the side condition)"
+                                          % (n, ops, jv[t], iv[t], a["spec"]),
+                                          {"builtin": n, "operands": ops, "java": jv[t], "interp": iv[t], "spec": a["spec"],
+                                           "how_to_replay": "./check C12 --replay <this file>"}, key="java:" + n)
+                        continue
+                if jv[t] != model_java:
+                    stats["builtin_model_mismatch"] += 1
+                    if ("model", n) not in seen_bad:
+                        seen_bad.add(("model", n))
+                        rep.violation("correspondence Java/Model no longer checks: %s on %s is %d on the JVM, the model says %d"
+                                      % (n, ops, jv[t], model_java), {"builtin": n, "operands": ops, "jvm": jv[t], "model": model_java},
+                                      no_input=True)
+                else:
+                    stats["builtin_model_agree"] += 1
+        todo = nxt
     stats["builtin_names"] = len({n for (n, _), _ in keep})
     return rows
 
